@@ -141,7 +141,7 @@ func refuse(format string, a ...interface{}) { panic(refusal{fmt.Sprintf(format,
 // flat returns the scalar leaves of a value in a fixed order
 func flat(v val) []val {
 	switch v.typ {
-	case "int", "bool", "prop", "loc", "segs", "lens", "elem":
+	case "int", "bool", "prop", "loc", "segs", "lens", "elem", "elemval":
 		return []val{v}
 	}
 	var out []val
@@ -342,6 +342,14 @@ func (e *env) expr(x ast.Expr) val {
 }
 
 func (e *env) call(n *ast.CallExpr) val {
+	if identName(n.Fun) == "make" && e.ext != nil && len(n.Args) == 2 && identName(n.Args[0]) == "Regions" {
+		// `make(Regions, n)`: n nil elements, seen through the view (filled by index below)
+		c := e.expr(n.Args[1])
+		if c.typ != "int" {
+			refuse("make length")
+		}
+		return val{typ: "lens", expr: fmt.Sprintf("(List.replicate (Int.toNat %s) %s)", c.expr, e.viewD)}
+	}
 	if identName(n.Fun) == "make" {
 		// `make([]Segment, 0, cap)`: the empty list (the capacity is not observable)
 		at, ok := n.Args[0].(*ast.ArrayType)
@@ -422,9 +430,12 @@ func (e *env) call(n *ast.CallExpr) val {
 				}
 			}
 		}
-		if recv.typ == "elem" && f.Sel.Name == e.viewM && e.viewT == "Int" && len(args) == 0 {
+		if recv.typ == "elem" && f.Sel.Name == e.viewM && len(args) == 0 {
 			// dynamic dispatch `Region.M()` on an element of a Regions value: the element of the view
-			return val{typ: "int", expr: recv.expr}
+			if e.viewT == "Int" {
+				return val{typ: "int", expr: recv.expr}
+			}
+			return val{typ: "elemval", expr: recv.expr}
 		}
 		if f.Sel.Name == "Len" && recv.typ == "lens" && e.viewM == "Len" && len(args) == 0 {
 			// `Regions.Len()`: the generated range loop over the element lengths
@@ -593,7 +604,11 @@ func (e *env) assign(lhs ast.Expr, v val, lets *[]string) {
 			if v.typ == "prop" {
 				v = val{typ: "bool", expr: asBool(v)}
 			}
-			*lets = append(*lets, fmt.Sprintf("let %s : %s := %s;", l.Name, leanType[v.typ], v.expr))
+			lt := leanType[v.typ]
+			if v.typ == "lens" {
+				lt = "List " + e.viewT
+			}
+			*lets = append(*lets, fmt.Sprintf("let %s : %s := %s;", l.Name, lt, v.expr))
 			e.vars[l.Name] = val{typ: v.typ, expr: l.Name}
 			return
 		}
@@ -613,6 +628,17 @@ func (e *env) assign(lhs ast.Expr, v val, lets *[]string) {
 				}
 				*lets = append(*lets, fmt.Sprintf("let %s : %s := %s.set (Int.toNat %s) (%s, %s);", base.expr, leanType["segs"],
 					base.expr, idx.expr, v.fields["E0"].expr, v.fields["E1"].expr))
+				return
+			}
+		}
+		if ix, ok := lhs.(*ast.IndexExpr); ok {
+			if base := e.expr(ix.X); base.typ == "lens" {
+				// `ret[k] = r.M()` on a Regions value seen through the view of M
+				idx := e.expr(ix.Index)
+				if idx.typ != "int" || v.typ != "elemval" || !isVarName(base.expr) || identName(ix.X) != base.expr {
+					refuse("element assignment")
+				}
+				*lets = append(*lets, fmt.Sprintf("let %s : List %s := %s.set (Int.toNat %s) %s;", base.expr, e.viewT, base.expr, idx.expr, v.expr))
 				return
 			}
 		}
@@ -731,6 +757,11 @@ func (e *env) blockK(stmts []ast.Stmt, k func(en *env) string) string {
 			case "segs":
 				if v.typ != "segs" {
 					refuse("return of %s for a []Segment", v.typ)
+				}
+				parts[i] = v.expr
+			case "lens":
+				if v.typ != "lens" {
+					refuse("return of %s for a Regions", v.typ)
 				}
 				parts[i] = v.expr
 			default:
